@@ -12,7 +12,7 @@ RULE = ('base molecules = corpus sample + curated feature molecules + ring assem
         'editing API (groups, counter ions, isotopes) and stereo label variants, + 414 constitutionally symmetric dimers / trimers '
         'with every (also partial) label combination + 1311 mixtures of regular rings, chains and ions; per base molecule D descriptions: '
         're-description transformer (new sparse/colliding numbers, shuffled atom+bond insertion, stereo re-attached) of the normal form and of a Kekule form, '
-        "the library's random-order writer in styles r/ra/rA/rh re-read, and RDKit random kekule spellings re-read; "
+        "the library's random-order writer in styles r/ra/rA/rh re-read, and RDKit canonical + random kekule spellings re-read (incl. 16 labelled double bonds in rings of 8-12 atoms); "
         'oracle: str/==/hash equal across descriptions after kekule();thiele(); a case is non-trivial and distinct by '
         '(one of smiles_atoms_order / atoms_order / get_fast_mapping / hash read on the description before its string in 4 of 6 comparisons); a case is non-trivial and distinct by '
         'its canonical string when the molecule has a ring, a stereo label, a charge, an isotope or several components')
